@@ -20,12 +20,16 @@ Grammar (anything else raises ExtractError with file:line):
   def f(p: T, …, keep: list[…] = []) -> Network
   name = expr            l.remove(expr)            return expr
   for a, b in <list of pairs>: <assignments to exactly one name that is live before the loop>   (a left fold)
+  for k in range(len(<list>)): <assignments `name = expr` / `a, b = <pair>`>   (a left fold over 0 … len-1, the length taken
+        once before the loop; accumulator = the assigned names that are live before the loop, in order of first assignment;
+        the other assigned names are local to one pass and unknown after the loop; `l[k]` may raise → the fold is monadic)
   nested  def g(x: Branch) -> Branch|bool:  guarded-return chain  `if c: return e … return e`
   expr: names, network.branches, network.node_zero_label, network.is_zero_node(x), network[x], b.node1, b.node2,
         b.element, b.element.name, b.element.Z/Y/V/I, list(x), Branch(a, b, el), Network(bs, zero) (positional or
         keyword), impedance(name, Z), admittance(name, Y), is_*(el), calls of functions of this file (keyword or
         positional), calls of nested helpers, [E for x in L if C] (one generator), (a, b), A if C else B,
-        b.id, ==, !=, in, not in, not, and, or, True, False, 0, 1
+        b.id, ==, !=, in, not in, not, and, or, True, False, 0, 1, len(l) (only as the bound of a loop), l[k] (k a loop
+        index; IndexError bound like the other effects), [E for a, b in <list of pairs> if C]
 """
 from __future__ import annotations
 import ast
@@ -43,7 +47,7 @@ def lean_ty(t):
     if isinstance(t, tuple) and t[0] == 'list':
         return f'List ({lean_ty(t[1])})'
     return {'net': 'Net L K', 'branch': 'Branch L K', 'elt': 'Py.Elt K', 'label': 'L', 'id': 'String', 'bool': 'Bool',
-            'num': 'K', 'xval': 'Py.XVal K', 'pair': 'L × L'}[t]
+            'num': 'K', 'xval': 'Py.XVal K', 'pair': 'L × L', 'nat': 'Nat'}[t]
 
 # parameters whose annotation `str` is a node label, resp. a branch id (the only configuration)
 STR_KIND = {('switch_ground_node', 'new_ground'): 'label', ('remove_element', 'element'): 'id'}
@@ -131,7 +135,9 @@ class FnTr:
             i, ki = self.expr(e.slice)
             if k == 'net' and ki == 'id':
                 return self.bind(f'Network.getitem {v} {i}', 'd', e), 'branch'
-            refuse(F_TRF, e, 'subscript outside the grammar (only network[id])')
+            if isinstance(k, tuple) and k[0] == 'list' and ki == 'nat':
+                return self.bind(f'Py.listIndex {v} {i}', 'd', e), k[1]       # l[k], k ≥ 0: IndexError iff k ≥ len(l)
+            refuse(F_TRF, e, 'subscript outside the grammar (only network[id] and list[loop index])')
         if isinstance(e, ast.Tuple):
             if len(e.elts) != 2: refuse(F_TRF, e, 'only pairs')
             (a, ka), (b, kb) = self.expr(e.elts[0]), self.expr(e.elts[1])
@@ -163,26 +169,39 @@ class FnTr:
                 return f'(decide ({a} {"∈" if isinstance(op, ast.In) else "∉"} {b}))', 'bool'
             refuse(F_TRF, e, 'comparison operator outside the grammar')
         if isinstance(e, ast.ListComp):
-            if len(e.generators) != 1 or e.generators[0].is_async or not isinstance(e.generators[0].target, ast.Name):
-                refuse(F_TRF, e, 'comprehension with more than one generator / a pattern target')
+            if len(e.generators) != 1 or e.generators[0].is_async:
+                refuse(F_TRF, e, 'comprehension with more than one generator')
             g = e.generators[0]
             src, ks = self.expr(g.iter)
             if not (isinstance(ks, tuple) and ks[0] == 'list'): refuse(F_TRF, e, 'comprehension over a non-list')
-            x = g.target.id
-            saved = self.env.get(x)
-            self.env[x] = (x, ks[1])
+            if isinstance(g.target, ast.Name):
+                x, bound, pre = g.target.id, [(g.target.id, ks[1])], ''
+            elif isinstance(g.target, ast.Tuple) and len(g.target.elts) == 2 and all(isinstance(t, ast.Name) for t in g.target.elts) \
+                    and ks[1] == 'pair' and g.target.elts[0].id != g.target.elts[1].id:
+                # `for a, b in <list of pairs>`: the pair is bound to a fresh name, its components to a and b
+                x = self.fresh('p')
+                if x in self.env: refuse(F_TRF, e, f'name clash with the generated name {x}')
+                ta, tb = g.target.elts[0].id, g.target.elts[1].id
+                bound = [(ta, 'label'), (tb, 'label')]
+                pre = f'let {ta} : L := {x}.1; let {tb} : L := {x}.2; '
+            else:
+                refuse(F_TRF, e, 'comprehension target outside the grammar (a name, or `a, b` over a list of pairs)')
+            saved = {n: self.env.get(n) for n, _ in bound}
+            for n, kn in bound:
+                self.env[n] = (n, kn)
             self.in_pure_context += 1
             out = src
             if g.ifs:
                 conds = [self.expr(c) for c in g.ifs]
                 if any(k != 'bool' for _, k in conds): refuse(F_TRF, e, 'non-boolean comprehension condition')
-                out = f'({out}.filter fun ({x} : {lean_ty(ks[1])}) => {" && ".join(c for c, _ in conds)})'
+                out = f'({out}.filter fun ({x} : {lean_ty(ks[1])}) => {pre}{" && ".join(c for c, _ in conds)})'
             el, kel = self.expr(e.elt)
-            if not (isinstance(e.elt, ast.Name) and e.elt.id == x):
-                out = f'({out}.map fun ({x} : {lean_ty(ks[1])}) => {el})'
+            if not (isinstance(e.elt, ast.Name) and isinstance(g.target, ast.Name) and e.elt.id == x):
+                out = f'({out}.map fun ({x} : {lean_ty(ks[1])}) => {pre}{el})'
             self.in_pure_context -= 1
-            if saved is None: del self.env[x]
-            else: self.env[x] = saved
+            for n, v in saved.items():
+                if v is None: del self.env[n]
+                else: self.env[n] = v
             return out, ('list', kel)
         if isinstance(e, ast.Call):
             return self.call(e)
@@ -210,6 +229,10 @@ class FnTr:
             a, ka = self.expr(e.args[0])
             if not (isinstance(ka, tuple) and ka[0] == 'list'): refuse(F_TRF, e, 'list(x) of a non-list')
             return a, ka                                       # value semantics: a copy is the value
+        if n == 'len' and len(e.args) == 1 and not e.keywords:
+            a, ka = self.expr(e.args[0])
+            if not (isinstance(ka, tuple) and ka[0] == 'list'): refuse(F_TRF, e, 'len(x) of a non-list')
+            return f'{a}.length', 'nat'
         if n == 'Branch':
             a = self.call_args(e, ['node1', 'node2', 'element'])
             if len(a) != 3: refuse(F_TRF, e, 'Branch(…) needs three arguments')
@@ -275,12 +298,19 @@ class FnTr:
 
     # ------------------------------------------------------------------ statements
     def assigned_names(self, stmts):
+        """names assigned by the statements of a loop body (`name = expr` or `a, b = expr`), in order of first assignment"""
         out = []
         for st in stmts:
             if isinstance(st, ast.Assign) and len(st.targets) == 1 and isinstance(st.targets[0], ast.Name):
-                if st.targets[0].id not in out: out.append(st.targets[0].id)
+                ns = [st.targets[0].id]
+            elif isinstance(st, ast.Assign) and len(st.targets) == 1 and isinstance(st.targets[0], ast.Tuple) \
+                    and len(st.targets[0].elts) == 2 and all(isinstance(t, ast.Name) for t in st.targets[0].elts) \
+                    and st.targets[0].elts[0].id != st.targets[0].elts[1].id:
+                ns = [t.id for t in st.targets[0].elts]
             else:
-                refuse(F_TRF, st, 'loop body statement outside the grammar (only `name = expr`)')
+                refuse(F_TRF, st, 'loop body statement outside the grammar (only `name = expr` and `a, b = <pair>`)')
+            for n in ns:
+                if n not in out: out.append(n)
         return out
 
     def block(self, stmts, tail=True):
@@ -335,11 +365,17 @@ class FnTr:
 
     def for_loop(self, st):
         if st.orelse: refuse(F_TRF, st, 'for … else')
+        it = st.iter
+        if isinstance(it, ast.Call) and isinstance(it.func, ast.Name) and it.func.id == 'range' and len(it.args) == 1 and not it.keywords \
+                and 'range' not in self.env:
+            return self.for_range(st)
         src, ks = self.expr(st.iter)
         if ks != ('list', 'pair') or not (isinstance(st.target, ast.Tuple) and len(st.target.elts) == 2
                                           and all(isinstance(t, ast.Name) for t in st.target.elts)):
-            refuse(F_TRF, st, 'for loop outside the grammar (only `for a, b in <list of label pairs>`)')
+            refuse(F_TRF, st, 'for loop outside the grammar (only `for a, b in <list of label pairs>` and `for k in range(len(<list>))`)')
         a, b = st.target.elts[0].id, st.target.elts[1].id
+        if any(isinstance(s.targets[0], ast.Tuple) for s in st.body if isinstance(s, ast.Assign) and len(s.targets) == 1):
+            refuse(F_TRF, st, 'pair assignment in a `for a, b in …` loop')
         names = self.assigned_names(st.body)
         if len(names) != 1 or names[0] not in self.env:
             refuse(F_TRF, st, 'the loop must update exactly one variable that exists before it (left fold)')
@@ -355,6 +391,63 @@ class FnTr:
         body = '\n'.join('      ' + l for l in inner.lines)
         self.lines.append(f'let {acc} : {lean_ty(kacc)} := {src}.foldl (fun ({acc} : {lean_ty(kacc)}) (p : L × L) =>\n'
                           f'      let {a} : L := p.1\n      let {b} : L := p.2\n{body}\n      {acc}) {self.env[acc][0]}')
+
+    def for_range(self, st):
+        """`for k in range(len(l)):` — `range(…)` is evaluated once, before the first pass: a left fold over
+        `List.range l.length` in `Except Err` (the body may index a list).  State of the fold = the names assigned in the
+        body that exist before the loop; every other assigned name is local to a pass (it must be assigned before it is used
+        in the pass, and it is unknown after the loop — a use would be refused as an unknown name)."""
+        if not self.monadic or self.in_pure_context:
+            refuse(F_TRF, st, 'indexed loop inside a helper')
+        if not isinstance(st.target, ast.Name):
+            refuse(F_TRF, st, 'indexed loop: the target is not a single name')
+        kname = st.target.id
+        bound, kb = self.expr(st.iter.args[0])
+        if kb != 'nat': refuse(F_TRF, st, 'range(…) of something that is not len(<list>)')
+        names = self.assigned_names(st.body)
+        if kname in self.env or kname in names:
+            refuse(F_TRF, st, f'the loop index {kname!r} is also a variable of the function')
+        accs = [n for n in names if n in self.env]
+        if not accs: refuse(F_TRF, st, 'the loop updates no variable that exists before it')
+        kinds = [self.env[n][1] for n in accs]
+        def proj(i):
+            if len(accs) == 1: return 'acc'
+            return 'acc' + '.2' * i + ('.1' if i < len(accs) - 1 else '')
+        inner = FnTr(self.g, self.fname, self.env, True, self.helpers)
+        inner.counter = self.counter
+        for n in names:
+            if n not in accs and n in inner.env: del inner.env[n]
+        inner.env[kname] = (kname, 'nat')
+        for i, (n, kn) in enumerate(zip(accs, kinds)):
+            inner.lines.append(f'let {n} : {lean_ty(kn)} := {proj(i)}')
+        for s in st.body:
+            c, k = inner.expr(s.value)
+            tg = s.targets[0]
+            if isinstance(tg, ast.Name):
+                if tg.id in accs and k != self.env[tg.id][1]: refuse(F_TRF, s, f'loop changes the kind of {tg.id}')
+                inner.lines.append(f'let {tg.id} : {lean_ty(k)} := {c}')
+                inner.env[tg.id] = (tg.id, k)
+            else:
+                if k != 'pair': refuse(F_TRF, s, f'`a, b = …` of a {k}')
+                t = inner.fresh('t')
+                if t in inner.env: refuse(F_TRF, s, f'name clash with the generated name {t}')
+                inner.lines.append(f'let {t} : L × L := {c}')
+                for j, x in enumerate(tg.elts):
+                    if x.id in accs: refuse(F_TRF, s, f'loop changes the kind of {x.id}')
+                    inner.lines.append(f'let {x.id} : L := {t}.{j + 1}')
+                    inner.env[x.id] = (x.id, 'label')
+        self.counter = inner.counter
+        tup = accs[0] if len(accs) == 1 else '(' + ', '.join(accs) + ')'
+        tty = lean_ty(kinds[0]) if len(accs) == 1 else ' × '.join(f'({lean_ty(k)})' for k in kinds)
+        inner.lines.append(f'pure {tup}')
+        body = '\n'.join('      ' + l for l in inner.lines)
+        r = self.fresh('acc')
+        if r in self.env: refuse(F_TRF, st, f'name clash with the generated name {r}')
+        self.lines.append(f'let {r} ← (List.range {bound}).foldlM (fun (acc : {tty}) ({kname} : Nat) => do\n{body}) '
+                          f'{"(" + ", ".join(self.env[n][0] for n in accs) + ")" if len(accs) > 1 else self.env[accs[0]][0]}')
+        for i, (n, kn) in enumerate(zip(accs, kinds)):
+            self.lines.append(f'let {n} : {lean_ty(kn)} := {r}{proj(i)[3:]}')
+            self.env[n] = (n, kn)
 
     def helper(self, fn):
         """nested `def g(x: T) -> R:` with a guarded-return chain; free variables are those of the enclosing function"""
